@@ -305,6 +305,10 @@ func (o *OperandPegImpl) CalcOffsetByteSize() int {
 			if o.bitMode == cpu.MODE_16BIT && memInfo.BaseReg == "BP" && memInfo.IndexReg == "" {
 				return 1 // disp8=0 for [BP]
 			}
+			// Same for [EBP] in 32-bit addressing (mod=00, r/m=101 means disp32 without base).
+			if memInfo.BaseReg == "EBP" && memInfo.IndexReg == "" {
+				return 1 // disp8=0 for [EBP]
+			}
 			// Other cases like [BX], [SI], [BX+SI] etc. need no offset bytes with ModRM mode 00.
 			return 0
 		}
